@@ -10,7 +10,7 @@ from checkdefs import CHECKS
 def run_range(exe, variant, check, lo, hi, out):
     cur = lo
     while cur < hi:
-        p = subprocess.Popen([exe, "run", check, str(cur), str(hi), "quick"], stdout=subprocess.PIPE, stderr=subprocess.DEVNULL, env=dict(os.environ, SIM_VARIANT=variant, LD_BIND_NOW="1"))
+        p = subprocess.Popen([exe, "run", check, str(cur), str(hi), "quick"], stdout=subprocess.PIPE, stderr=subprocess.DEVNULL, env=dict(os.environ, SIM_VARIANT=variant.split("+")[0], LD_BIND_NOW="1", **({"ASAN_OPTIONS": "quarantine_size_mb=0:thread_local_quarantine_size_kb=0"} if variant.endswith("+reuse") else {})))
         last = cur - 1
         for raw in p.stdout:
             try:
